@@ -156,10 +156,11 @@ def oracleSer (e : Endian) (K : Content) (cstr : List (Bytes × List Nat)) (impl
       | some why => "FAIL image does not conform: " ++ why
       | none =>
         if cstr.isEmpty ∧ img ≠ canonical enc e K then "FAIL image is not the canonical image" else
-        if fieldOf impl "re" != some "1" then "FAIL parse then serialize does not reproduce the image" else
         match judgeObservation K' cuses impl with
         | some why => "FAIL " ++ why
-        | none => "ok"
+        | none =>
+          if fieldOf impl "re" != some "1" then "FAIL parse then serialize does not reproduce the image"
+          else "ok"
 
 def oracleImg (e : Endian) (img : Bytes) (K : Content) (impl : List String) : String :=
   match conformsCheck enc e img K with
